@@ -55,8 +55,34 @@ def own_uuids():
     _Uuid.n = 0
 
 
+class Stateful:
+    """A result element that serializes differently every time it is dumped (a counter is part of its pickled state)."""
+    dumps = 0
+
+    def __init__(self, tag):
+        self.tag = tag
+
+    def __getstate__(self):
+        Stateful.dumps += 1
+        return {"tag": self.tag, "dump": Stateful.dumps}
+
+    def __setstate__(self, st):
+        self.tag = st["tag"]
+
+    def __eq__(self, other):
+        return isinstance(other, Stateful) and other.tag == self.tag
+
+    def __hash__(self):
+        return hash(self.tag)
+
+    def __repr__(self):
+        return "Stateful(%r)" % self.tag
+
+
 def value_of(cls, tick, budget):
     tag = "v%06d" % tick
+    if cls == "G":
+        return [tag, Stateful(tag)]
     if cls in ("s", "t"):
         return tag + cls
     if cls == "L":
